@@ -30,8 +30,5 @@ void register_rect_b()
   });
   vrt::shard("rect/product/2x4.4x3", [] { product_pairs_all<2, 4, 3>(make_ops(structured<2, 4>(2)), make_ops(structured<4, 3>(2)), 0, 1); });
   vrt::shard("rect/product/3x4.4x2", [] { product_pairs_all<3, 4, 2>(make_ops(structured<3, 4>(2)), make_ops(structured<4, 2>(2)), 0, 1); });
-  vrt::shard("rect/assoc/2x4.4x3.3x2", [] {
-    rect_assoc<2, 4, 3, 2>(make_ops(structured<2, 4>(1)), make_ops(structured<4, 3>(1)), make_ops(structured<3, 2>(1)));
-  });
 }
 }
